@@ -110,6 +110,9 @@ func genUDPCase(r *Rng, prop string) udpCaseSpec {
 				}
 			}
 		}
+		if op.AKind == 17 || op.AKind == 18 {
+			op.PLen = 0 // a payload would complete the truncated address into some other destination
+		}
 		op.Key = fmt.Sprintf("%d/%d", op.C, op.S)
 		cs.Ops = append(cs.Ops, op)
 	}
